@@ -256,7 +256,18 @@ def run_case(case, backend="main"):
             elif op == 11:
                 ext.append((c[1], c[2], c[3][0] if c[3] else None))
             elif op == 12:
-                loop.set_quit_callback(lambda a: log.append([13, a]), c[1])
+                if c[1] % 2 == 0:
+                    # every other quit callback is a callable object whose truth value is False (a callable collection of
+                    # hooks that is currently empty): registered is registered
+                    class Hooks:
+                        def __len__(self):
+                            return 0
+
+                        def __call__(self, a):
+                            log.append([13, a])
+                    loop.set_quit_callback(Hooks(), c[1])
+                else:
+                    loop.set_quit_callback(lambda a: log.append([13, a]), c[1])
                 log.append([23, c[1]])
             else:
                 raise AssertionError(op)
